@@ -152,6 +152,9 @@ Section Ev.
       destruct g; cbn [fst]; exact G.
   Qed.
 
+  Lemma e_mutate s l : emits s (fst (mutate sc s l)) [].
+  Proof. apply emits_same. apply mutate_tr. Qed.
+
   (* exactly one result event per object of an apply task *)
   Lemma e_apply_one pl g s p : p_local p <> None ->
     exists st, emits s (apply_one sc pl g s p) [EApply g (p_id p) st].
@@ -162,9 +165,13 @@ Section Ev.
     pose proof (e_policy_apply_filter s (p_id p)) as P.
     destruct (policy_apply_filter sc s (p_id p)) as [s1 f1]. cbn [fst] in P.
     destruct (match f1 with FPass => _ | _ => _ end).
-    - pose proof (e_kubectl_apply s1 l) as K. destruct (kubectl_apply sc s1 l) as [s2 r]. cbn [fst] in K.
-      destruct r; eexists;
-        (eapply emits_nil_l; [exact P|]; eapply emits_nil_l; [exact K|]; eapply emits_nil_r; [apply emits_ev|apply e_rec_add]).
+    - pose proof (e_mutate s1 l) as M. destruct (mutate sc s1 l) as [sm okm]. cbn [fst] in M.
+      destruct okm; cbn [negb].
+      + pose proof (e_kubectl_apply sm l) as K. destruct (kubectl_apply sc sm l) as [s2 r]. cbn [fst] in K.
+        destruct r; eexists;
+          (eapply emits_nil_l; [exact P|]; eapply emits_nil_l; [exact M|]; eapply emits_nil_l; [exact K|];
+           eapply emits_nil_r; [apply emits_ev|apply e_rec_add]).
+      + eexists. eapply emits_nil_l; [exact P|]. eapply emits_nil_l; [exact M|]. eapply emits_nil_r; [apply emits_ev|apply e_rec_add].
     - eexists. eapply emits_nil_l; [exact P|]. eapply emits_nil_r; [apply emits_ev|apply e_rec_add].
     - eexists. eapply emits_nil_l; [exact P|]. eapply emits_nil_r; [apply emits_ev|apply e_rec_add].
   Qed.
